@@ -191,7 +191,7 @@ RECIPES = {
                "Option('A', 1, domain=Option('DOM', [1, 2]))", "Option('L.0')", "Option('A', domain=lambda t: {2: True}[t])",
                "Option('A', 7, domain=lambda t: {2: True, 7: True}[t])"],
     "Template": ["Template('inputs={S}')", "Template('{L}')", "Template('{A}-{S.X}')", "Template('{A} {:p:}', p=Option('B', 2))", "Template('{:p:}', p=Value('{NOPE}'))", "Template('{:p:}-{A}', p=Value({'x': 1}))", "Template('{:p:}', p=Option('B') >> ident)", "Template('{:l:}A{:r:}', l=Value('{'), r=Value('}'))", "Template('{A}', q=Option('B'))", "Template('{B}-{:B:}', B=Option('A'))",
-                 "Template('{A}-{:p:}', p=WithOptions(Option('A'), {'ROOT': 1}))", "Template('{:p:}', p=Value('a\\\\{b'))"],
+                 "Template('{A}-{:p:}', p=WithOptions(Option('A'), {'ROOT': 1}))", "Template('{A}/{:p:}', p=WithOptions(Option('A'), {'B': 'inner'}))", "Template('{:p:}', p=Value('a\\\\{b'))"],
     "_AllOptions": ["AllOptions"],
     "Dataset": ["ds(Option('A'), Option('AB', 0), Option('A_DECAY', 1))","ds(Option('A'), Option('B', 2))", "ds(Option('A'), options={'B': 1})", "ds(ds(Option('A')), Option('S.X', 0), default_options={'S': {'X': 4}})",
                 "ds(Option('A'), Option('S.B', 0), Option('S.C', 'c-fallback'), default_options={'S': {'B': 2, 'C': 3}, 'T': 5})",
@@ -222,9 +222,9 @@ KEYS = ["A", "B", "T", "X", "Y", "Z", "S", "FN", "DOM", "XS", "L"]
 
 def dict_universe(rnd, n):
     out = [{}, {"A": 1}, {"A": 2, "B": 3}, {"A": 1, "X": 5, "Z": 9}, {"A": 1, "T": 0, "X": 4, "Y": 6, "Z": 7},
-           {"S": {"X": 1, "Y": 2}}, {"A": "{B}", "B": 2}, {"A": "{NOPE}"}, {"A": "{ROOT}/data"}, {"A": "{ROOT}/data", "ROOT": "/r"}, {"A": 0}, {"A": None, "Z": 1}, {"A": 3, "S": {"X": 2}, "B": 1},
+           {"S": {"X": 1, "Y": 2}}, {"A": "{B}", "B": 2}, {"A": "{B}", "B": "outer"}, {"A": "{NOPE}"}, {"A": "{ROOT}/data"}, {"A": "{ROOT}/data", "ROOT": "/r"}, {"A": 0}, {"A": None, "Z": 1}, {"A": 3, "S": {"X": 2}, "B": 1},
            {"A": 1, "S": 5}, {"XS": [1, 2], "B": 1}, {"A": 1, "AB": 2, "A_DECAY": 3}, {"S": {"X": ["{ROOT}/a.csv"]}}, {"L": [{"p": "{ROOT}"}], "A": 1}, {"S": {"X": ["{A}/a.csv"]}, "A": 1}, {"LOGGING": {"LEVEL": 0, "KEEP": 2}, "SERVICE_A": {"LOGGING": {"LEVEL": 5}}, "SERVICE_B": {"LOGGING": {"LEVEL": 0}}},
-           {"SERVICE_A": {"LOGGING": {"LEVEL": 9}}, "LOGGING": {"KEEP": 1}}, {"SERVICE_B": {"LOGGING": {"FMT": ""}}}, {"TOP": {"MID": {"INNER": {"X": 0}, "M": None}}}, {"TOP": {"MID": {"INNER": {"X": "set"}}}}, {"KINDS": ["x", "y"], "X": 1, "Y": 2}, {"KINDS": ["y"], "Y": 2}, {"L": [7, 8]}, {"A": 1, "DOM": [1, 2]}, {"A": 3, "DOM": [1, 2]}]
+           {"SERVICE_A": {"LOGGING": {"LEVEL": 9}}, "LOGGING": {"KEEP": 1}}, {"SERVICE_B": {"LOGGING": {"FMT": ""}}}, {"TOP": {"MID": {"INNER": {"X": 0}, "M": None}}}, {"TOP": {"MID": {"INNER": {"X": "set"}}}}, {"KINDS": ["x", "y"], "X": 1, "Y": 2}, {"KINDS": ["y"], "Y": 2}, {"KINDS": ["x", "y"], "X": 1}, {"KINDS": ["y", "x"], "Y": 2}, {"L": [7, 8]}, {"A": 1, "DOM": [1, 2]}, {"A": 3, "DOM": [1, 2]}]
     for _ in range(n):
         d = {}
         for k in rnd.sample(KEYS, rnd.randint(0, 5)):
